@@ -728,3 +728,188 @@ def s_get_output_values(ctx):
 
 SCENARIOS.append(Scenario("C06.matcher.get_output_values[any number of outputs]", s_get_output_values, [(MREL, "SimplePatternMatcher._get_output_values")],
                           assumptions=["loop invariant with a universally quantified clause over the visited positions; termination not proved"]))
+
+
+# ------------------------------------------------------------------ NodePattern.matches for ANY number of attribute patterns / node attributes ---
+
+def s_node_pattern_matches_anynumber(ctx):
+    """NodePattern.matches with ANY number of attribute patterns and ANY number of node attributes (two loops, each with an invariant at one
+    Skolem position): the node-level match succeeds iff operator and domain match, EVERY attribute pattern is satisfied by the node (present
+    and accepted, or absent and allowed to be absent; a named one bound consistently) and — unless other attributes are allowed — every attribute
+    of the node is named by the pattern."""
+    import onnx_ir as ir
+    from onnxscript.rewriter import _pattern_ir, _basics
+    I = Interp(ctx)
+    NP, NA = ctx.int("attribute_patterns"), ctx.int("node_attributes")
+    ctx.assume(z3.And(NP >= 0, NA >= 0))
+    p0, a0 = ctx.int("p0"), ctx.int("a0")
+    ctx.assume(z3.And(p0 >= 0, p0 < NP, a0 >= 0, a0 < NA))
+    ctx.witness.update(NP=NP, NA=NA, p0=p0, a0=a0)
+    pname = z3.Function("pattern_attribute_name", I_, S_)
+    aname = z3.Function("node_attribute_name", I_, S_)
+    q = z3.Int("q")
+    ctx.assume(z3.ForAll([q], z3.Implies(z3.And(q >= 0, q < NP, q != p0), pname(q) != pname(p0))))    # dict keys are distinct
+    node_has = z3.Const("node_has_attribute", z3.ArraySort(S_, z3.BoolSort()))
+    node_val = z3.Const("node_attribute_value", z3.ArraySort(S_, I_))
+    ctx.assume(z3.ForAll([q], z3.Implies(z3.And(q >= 0, q < NA), z3.Select(node_has, aname(q)))))
+    in_pattern = z3.Const("is_a_pattern_attribute_name", z3.ArraySort(S_, z3.BoolSort()))
+    ctx.assume(z3.ForAll([q], z3.Implies(z3.And(q >= 0, q < NP), z3.Select(in_pattern, pname(q)))))
+    accepts = z3.Function("attribute_pattern_accepts_the_value", I_, z3.BoolSort())
+    can_none = z3.Function("attribute_pattern_can_match_none", I_, z3.BoolSort())
+    is_var = z3.Function("attribute_pattern_is_a_variable", I_, z3.BoolSort())
+    var_name = z3.Function("attribute_variable_name", I_, S_)
+    bind_ok = z3.Function("binding_the_attribute_variable_succeeds", I_, z3.BoolSort())
+    op_ok, dom_ok = ctx.bool("op_matches"), ctx.bool("domain_matches")
+    allow_other = ctx.choose(2, "allow_other_attributes") == 1
+
+    def strpat(t):
+        o = SObj(object, "strpattern")
+
+        def f(s):
+            raise AssertionError
+        I.models[f] = lambda interp, s, t=t: SBool(t)
+        o.fields["matches"] = f
+        return o
+    from pyvc.values import SBool
+    bound_calls = []
+
+    def mk_pattern(j):
+        ap = SObj(_pattern_ir.AttrPattern, "attrpattern")
+
+        def f(v):
+            raise AssertionError
+
+        def m(interp, v, j=j):
+            # the pattern is asked about the value the NODE holds under this pattern's name
+            if not (isinstance(v, SInt) and interp.ctx.branch(v.t == z3.Select(node_val, pname(j)))):
+                bound_calls.append(("wrong value", j))
+            return SBool(accepts(j))
+        I.models[f] = m
+        ap.fields.update(matches=f, can_match_none=ctx.branch(can_none(j)), name=(SStr(var_name(j)) if ctx.branch(is_var(j)) else None))
+        ap.idx = j
+        return ap
+
+    class PatAttrs:
+        def __init__(self):
+            self.seq = SSeq(NP, lambda j: (SStr(pname(z3.simplify(j))), mk_pattern(z3.simplify(j))), name="self.attributes.items()")
+
+        def items(self):
+            return self.seq
+
+        def __contains__(self, name):
+            return SBool(z3.Select(in_pattern, term(name)))
+    PatAttrs.items._pyvc_native = True
+    PatAttrs.__contains__._pyvc_native = True
+
+    class NodeAttrs:
+        def get(self, name, default=None):
+            t = term(name)
+            if ctx.branch(z3.Select(node_has, t)):
+                return SInt(z3.Select(node_val, t))
+            return default
+
+        def __iter__(self):
+            raise AssertionError
+    NodeAttrs.get._pyvc_native = True
+    pattrs, nattrs = PatAttrs(), NodeAttrs()
+    orig_contains = I.contains
+
+    def contains(container, item):
+        if container is pattrs:
+            return SBool(z3.Select(in_pattern, term(item)))
+        return orig_contains(container, item)
+    I.contains = contains
+    names_seq = SSeq(NA, lambda j: SStr(aname(z3.simplify(j))), name="node.attributes")
+    np_ = SObj(_pattern_ir.NodePattern, "nodepattern")
+    np_.fields.update(op=strpat(op_ok), domain=strpat(dom_ok), attributes=pattrs, allow_other_attributes=allow_other)
+    node = SObj(ir.Node, "node")
+    node.fields.update(op_type="Op", domain="", attributes=nattrs)
+    # `for name in node.attributes`: iteration over the stand-in yields the symbolic sequence of the node's attribute names
+    match = SObj(_basics.MatchResult, "match")
+    state = {"failed": False, "binds": []}
+
+    def m_fail(*a, **k):
+        raise AssertionError
+
+    def mm_fail(interp, *a, **k):
+        state["failed"] = True
+        return match
+    I.models[m_fail] = mm_fail
+
+    def m_bind(*a):
+        raise AssertionError
+
+    def mm_bind(interp, name, value):
+        j = None
+        state["binds"].append((name, value))
+        # which pattern asks: identified through the variable name handed over
+        ok = ctx.branch(z3.And(term(name) == var_name(state["cur"]), bind_ok(state["cur"])))
+        if not ok:
+            state["failed"] = True
+        return ok
+    I.models[m_bind] = mm_bind
+    match.fields.update(fail=m_fail, bind=m_bind)
+
+    def truth_of_match():
+        return not state["failed"]
+
+    def sat(p):
+        present = z3.Select(node_has, pname(p))
+        return z3.And(z3.If(present, accepts(p), can_none(p)), z3.Implies(is_var(p), bind_ok(p)))
+
+    def inv_patterns(interp, env, k, pre, it):
+        return [("a_passed_attribute_pattern_is_satisfied", z3.Implies(k > p0, sat(p0))), ("no_failure_recorded_so_far", z3.BoolVal(not state["failed"]))]
+
+    def inv_attrs(interp, env, k, pre, it):
+        return [("a_passed_node_attribute_is_named_by_the_pattern", z3.Implies(k > a0, z3.Select(in_pattern, aname(a0)))),
+                ("no_failure_recorded_so_far", z3.BoolVal(not state["failed"]))]
+    I.loops[("NodePattern.matches", 0)] = LoopSpec({}, inv_patterns)
+    I.loops[("NodePattern.matches", 1)] = LoopSpec({}, inv_attrs)
+    # iteration hooks: the current pattern index for bind, and iteration over node.attributes
+    orig_assign = I.assign_target
+
+    def assign_target(target, value, env):
+        if isinstance(value, tuple) and len(value) == 2 and isinstance(value[1], SObj) and hasattr(value[1], "idx"):
+            state["cur"] = value[1].idx
+        return orig_assign(target, value, env)
+    I.assign_target = assign_target
+    P = "C06.pattern_ir.node_pattern.any_number."
+    orig_eval_for = I.x_For
+
+    def x_For(node_, env):
+        it = I.eval(node_.iter, env)
+        if it is nattrs:
+            import ast as _ast
+            # rewrite the iterable to the symbolic name sequence
+            env.assign("__node_attribute_names__", names_seq)
+            new = _ast.For(target=node_.target, iter=_ast.Name(id="__node_attribute_names__", ctx=_ast.Load()), body=node_.body, orelse=node_.orelse)
+            _ast.copy_location(new, node_)
+            _ast.fix_missing_locations(new)
+            I._loop_ord[id(new)] = I._static_loop_key(node_)[1]
+            return orig_eval_for(new, env)
+        return orig_eval_for(node_, env)
+    I.x_For = x_For
+    try:
+        r = I.call(I.getattr(np_, "matches"), [node, match])
+    except PyRaise:
+        ctx.check(P + "never_raises", False, CL)
+        return
+    got = (r is match) and not state["failed"]
+    ctx.check(P + "attribute_patterns_are_asked_about_the_node_value_of_their_own_name", not [b for b in bound_calls if b[0] == "wrong value"], CL)
+    if got:
+        ctx.cover("node_pattern.any_number.matched")
+        ctx.check(P + "matched_only_if_operator_and_domain_match", z3.And(op_ok, dom_ok), CL)
+        ctx.check(P + "matched_only_if_every_attribute_pattern_is_satisfied", sat(p0), "C06: 'operator, domain and attributes agree ... optional or extra inputs and attributes'")
+        if not allow_other:
+            ctx.check(P + "matched_only_if_every_node_attribute_is_named_by_the_pattern", z3.Select(in_pattern, aname(a0)), CL)
+    else:
+        ctx.cover("node_pattern.any_number.failed")
+        c1, c2 = z3.Ints("c1 c2")
+        reason = z3.Or(z3.Not(op_ok), z3.Not(dom_ok), z3.Exists([c1], z3.And(c1 >= 0, c1 < NP, z3.Not(sat(c1)))),
+                       z3.And(z3.BoolVal(not allow_other), z3.Exists([c2], z3.And(c2 >= 0, c2 < NA, z3.Not(z3.Select(in_pattern, aname(c2)))))))
+        ctx.check(P + "fails_only_for_a_reason", reason, CL)
+
+
+SCENARIOS.append(Scenario("C06.pattern_ir.node_pattern_matches[any number of attributes]", s_node_pattern_matches_anynumber, [(PREL, "NodePattern.matches")],
+                          trusted=["AttrPattern.matches / MatchResult.bind answer arbitrarily (uninterpreted functions of the pattern's position): their own contracts are c06_state / c06_matcher"],
+                          assumptions=["two loop invariants, each at one arbitrary (Skolem) position; termination not proved"]))
